@@ -353,9 +353,42 @@ theorem verifySeq_inv (hinj : IdInj U) {cfg : Cfg} (hg : cfg.allGuard = true) {s
 
 /-! ### notifications never touch the store, except `notifyReceivedCa` through `addAA` -/
 
-@[simp] theorem notifyUnknown_store (S : Station) (h : Nat) : (S.notifyUnknown h).store = S.store := rfl
+@[simp] theorem requestOwn_store (S : Station) (ids : List Nat) : (S.requestOwn ids).store = S.store := by
+  unfold Station.requestOwn; split <;> rfl
+@[simp] theorem requestOwn_hasSign (S : Station) (ids : List Nat) : (S.requestOwn ids).hasSign = S.hasSign := by
+  unfold Station.requestOwn; split <;> rfl
+@[simp] theorem requestOwn_unknownAts (S : Station) (ids : List Nat) : (S.requestOwn ids).unknownAts = S.unknownAts := by
+  unfold Station.requestOwn; split <;> rfl
+@[simp] theorem requestOwn_requestedAts (S : Station) (ids : List Nat) :
+    (S.requestOwn ids).requestedAts = S.requestedAts := by
+  unfold Station.requestOwn; split <;> rfl
+@[simp] theorem requestOwn_lastFull (S : Station) (ids : List Nat) : (S.requestOwn ids).lastFull = S.lastFull := by
+  unfold Station.requestOwn; split <;> rfl
+@[simp] theorem requestOwn_lastOf (S : Station) (ids : List Nat) : (S.requestOwn ids).lastOf = S.lastOf := by
+  unfold Station.requestOwn; split <;> rfl
+@[simp] theorem requestOwn_perTicket (S : Station) (ids : List Nat) : (S.requestOwn ids).perTicket = S.perTicket := by
+  unfold Station.requestOwn; split <;> rfl
+@[simp] theorem requestOwn_reqOwn (S : Station) (ids : List Nat) : (S.requestOwn ids).reqOwn = true := by
+  unfold Station.requestOwn; split <;> rfl
+
+@[simp] theorem included_store (S : Station) (t now : Nat) : (S.included t now).store = S.store := by
+  unfold Station.included; split <;> rfl
+@[simp] theorem included_hasSign (S : Station) (t now : Nat) : (S.included t now).hasSign = S.hasSign := by
+  unfold Station.included; split <;> rfl
+@[simp] theorem included_unknownAts (S : Station) (t now : Nat) : (S.included t now).unknownAts = S.unknownAts := by
+  unfold Station.included; split <;> rfl
+@[simp] theorem included_requestedAts (S : Station) (t now : Nat) :
+    (S.included t now).requestedAts = S.requestedAts := by
+  unfold Station.included; split <;> rfl
+@[simp] theorem included_lastFull (S : Station) (t now : Nat) : (S.included t now).lastFull = now := by
+  unfold Station.included; split <;> rfl
+@[simp] theorem included_perTicket (S : Station) (t now : Nat) : (S.included t now).perTicket = S.perTicket := by
+  unfold Station.included; split <;> rfl
+
+@[simp] theorem notifyUnknown_store (S : Station) (h : Nat) : (S.notifyUnknown h).store = S.store := by
+  unfold Station.notifyUnknown; simp
 @[simp] theorem note_store (S : Station) (h : Nat) : (S.note h).store = S.store := by
-  unfold Station.note; split <;> rfl
+  unfold Station.note; split <;> simp
 
 theorem addRequested_store (S : Station) (x : Nat) : (S.addRequested x).store = S.store := by
   unfold Station.addRequested; split <;> rfl
@@ -369,7 +402,9 @@ theorem foldl_addRequested_store (l : List Nat) (S : Station) : (l.foldl Station
   unfold Station.notifyInline
   simp only
   rw [foldl_addRequested_store]
-  split <;> rfl
+  split
+  · exact requestOwn_store _ _
+  · rfl
 
 theorem notifyReceivedCa_inv (hinj : IdInj U) {cfg : Cfg} (hg : cfg.allGuard = true) {S : Station}
     (hinv : Inv U S.store) {c : Cert} (hc : U c) : Inv U (S.notifyReceivedCa cfg c).1.store := by
@@ -448,7 +483,9 @@ theorem popRequested_store (S : Station) : (S.popRequested).1.store = S.store :=
     split
     · exact this
     · exact this
-    · split <;> exact this
+    · split
+      · rw [included_store]; exact this
+      · exact this
 
 @[simp] theorem signDenm_store (S : Station) (loc : Bool) (psid gt pl : Nat) :
     (S.signDenm loc psid gt pl).1.store = S.store := by
@@ -931,9 +968,10 @@ def verifyMsgCore (cfg : Cfg) (st : Store) (hs : Bool) (m : Msg) : Store × Exce
       | .ok (st', some a) => verifyWithCore cfg st' hs m a
     | _ => (st, .ok { report := .unsupportedSignerIdentifierType })
 
-@[simp] theorem notifyUnknown_hasSign (S : Station) (h : Nat) : (S.notifyUnknown h).hasSign = S.hasSign := rfl
+@[simp] theorem notifyUnknown_hasSign (S : Station) (h : Nat) : (S.notifyUnknown h).hasSign = S.hasSign := by
+  unfold Station.notifyUnknown; simp
 @[simp] theorem note_hasSign (S : Station) (h : Nat) : (S.note h).hasSign = S.hasSign := by
-  unfold Station.note; split <;> rfl
+  unfold Station.note; split <;> simp
 
 theorem onSuccess_core (cfg : Cfg) (S : Station) (m : Msg) :
     ((S.onSuccess cfg m).1.store, (S.onSuccess cfg m).2) = onSuccessCore cfg S.store S.hasSign m := by
@@ -1097,8 +1135,10 @@ theorem signCam_ok {S S' : Station} {now psid gt pl : Nat} {m : Msg}
       m.inlineReq = S.inlineField ∧
       (m.reqCert = none ∨ ∃ x ca, S.requestedAts.head? = some x ∧ caByH3 S.store x = some ca ∧ m.reqCert = some ca.c) ∧
       S'.store = S.store ∧ S'.unknownAts = S.unknownAts ∧ S'.requestedAts = S.requestedAts.tail ∧ S'.hasSign = S.hasSign ∧
-      ((S.wantsCert now = true ∧ m.signer = .certs [a.c] ∧ S'.lastFull = now ∧ S'.reqOwn = false) ∨
-       (S.wantsCert now = false ∧ m.signer = .digest a.c.id ∧ S'.lastFull = S.lastFull ∧ S'.reqOwn = S.reqOwn)) := by
+      ((S.wantsCert a.c.id now = true ∧ m.signer = .certs [a.c] ∧ S'.lastFull = now ∧
+          S' = ({ S with requestedAts := S.requestedAts.tail }).included a.c.id now) ∨
+       (S.wantsCert a.c.id now = false ∧ m.signer = .digest a.c.id ∧ S'.lastFull = S.lastFull ∧
+          S' = { S with requestedAts := S.requestedAts.tail })) := by
   unfold Station.signCam at h
   obtain ⟨hp1, hp2⟩ := popRequested_spec S
   split at h
@@ -1118,13 +1158,14 @@ theorem signCam_ok {S S' : Station} {now psid gt pl : Nat} {m : Msg}
         simp only [Prod.mk.injEq, Except.ok.injEq] at h
         obtain ⟨h1, h2⟩ := h
         subst h1 h2
-        exact ⟨⟨rfl, rfl, rfl, rfl, rfl, rfl, rfl, rfl, rfl⟩, rfl, rfl, hrc, rfl, rfl, rfl, rfl, Or.inl ⟨hw, rfl, rfl, rfl⟩⟩
+        exact ⟨⟨rfl, rfl, rfl, rfl, rfl, rfl, rfl, rfl, rfl⟩, rfl, rfl, hrc, by simp, by simp, by simp, by simp,
+          Or.inl ⟨hw, rfl, by simp, rfl⟩⟩
       · rename_i hw
         simp only [Prod.mk.injEq, Except.ok.injEq] at h
         obtain ⟨h1, h2⟩ := h
         subst h1 h2
         exact ⟨⟨rfl, rfl, rfl, rfl, rfl, rfl, rfl, rfl, rfl⟩, rfl, rfl, hrc, rfl, rfl, rfl, rfl,
-          Or.inr ⟨by simpa [Station.wantsCert] using hw, rfl, rfl, rfl⟩⟩
+          Or.inr ⟨by have := hw; simp only [Bool.not_eq_true] at this; exact this, rfl, rfl, rfl⟩⟩
 
 theorem signDenm_ok {S S' : Station} {loc : Bool} {psid gt pl : Nat} {m : Msg}
     (h : S.signDenm loc psid gt pl = (S', .ok m)) :
@@ -1423,33 +1464,174 @@ theorem accept_digest_known {cfg : Cfg} {S : Station} {c : Cert} (hr : Ready cfg
 
 /-! ### P2PCD bookkeeping -/
 
-/-- the station will ask for ticket `x` (HashedId3) and attach its own certificate in its next CAM -/
-def Asking (S : Station) (x : Nat) : Prop := x ∈ S.unknownAts ∧ S.reqOwn = true
+open Station in
+theorem mem_addOwed {owed ids : List Nat} {x : Nat} : x ∈ addOwed owed ids ↔ x ∈ owed ∨ x ∈ ids := by
+  unfold addOwed
+  induction ids generalizing owed with
+  | nil => simp
+  | cons y ys ih =>
+    simp only [List.foldl_cons]
+    rw [ih]
+    by_cases hc : owed.contains y = true
+    · have hy : y ∈ owed := by simpa using hc
+      simp only [hc, if_true, List.mem_cons]
+      grind
+    · simp only [hc, Bool.false_eq_true, if_false, List.mem_append, List.mem_cons, List.mem_nil_iff, or_false]
+      grind
 
-theorem notifyUnknown_asking (S : Station) (h8 : Nat) : Asking (S.notifyUnknown h8) (h3 h8) := by
-  unfold Station.notifyUnknown Asking
-  refine ⟨?_, rfl⟩
-  show h3 h8 ∈ (if S.unknownAts.contains (h3 h8) then S.unknownAts else S.unknownAts ++ [h3 h8])
+open Station in
+theorem addOwed_ne_nil {owed ids : List Nat} (h : owed ≠ [] ∨ ids ≠ []) : addOwed owed ids ≠ [] := by
+  intro hn
+  rcases h with h | h
+  · cases owed with
+    | nil => exact h rfl
+    | cons a t => have : a ∈ addOwed (a :: t) ids := mem_addOwed.2 (Or.inl (by simp)); rw [hn] at this; simp at this
+  · cases ids with
+    | nil => exact h rfl
+    | cons a t => have : a ∈ addOwed owed (a :: t) := mem_addOwed.2 (Or.inr (by simp)); rw [hn] at this; simp at this
+
+/-- no request is pending that names no ticket (per-ticket variant; the repaired code serves such a request by the next
+    signer, whichever ticket it uses) -/
+def Station.OwedWF (S : Station) : Prop := S.perTicket = true → S.reqOwn = true → S.owed ≠ []
+
+/-- ticket `t` owes its certificate to a peer's request -/
+def Owes (S : Station) (t : Nat) : Prop := S.asked t = true ∧ S.OwedWF
+
+/-- the request bookkeeping of `T` is that of `S` -/
+def SameReq (S T : Station) : Prop := T.perTicket = S.perTicket ∧ T.reqOwn = S.reqOwn ∧ T.owed = S.owed
+
+theorem SameReq.asked {S T : Station} (h : SameReq S T) (t : Nat) : T.asked t = S.asked t := by
+  unfold Station.asked; rw [h.1, h.2.1, h.2.2]
+
+theorem SameReq.wf {S T : Station} (h : SameReq S T) (hw : S.OwedWF) : T.OwedWF := by
+  unfold Station.OwedWF at *; rw [h.1, h.2.1, h.2.2]; exact hw
+
+theorem SameReq.owes {S T : Station} (h : SameReq S T) {t : Nat} (ho : Owes S t) : Owes T t :=
+  ⟨by rw [h.asked]; exact ho.1, h.wf ho.2⟩
+
+theorem SameReq.trans {S T V : Station} (h1 : SameReq S T) (h2 : SameReq T V) : SameReq S V :=
+  ⟨h2.1.trans h1.1, h2.2.1.trans h1.2.1, h2.2.2.trans h1.2.2⟩
+
+theorem asked_reqOwn {S : Station} {t : Nat} (ha : S.asked t = true) : S.reqOwn = true := by
+  unfold Station.asked at ha
+  by_cases hp : S.perTicket = true
+  · simp only [hp, if_true, Bool.and_eq_true] at ha; exact ha.1
+  · simpa [hp] using ha
+
+theorem asked_requestOwn_mem (S : Station) {ids : List Nat} {t : Nat} (ht : t ∈ ids) :
+    (S.requestOwn ids).asked t = true := by
+  unfold Station.requestOwn Station.asked
+  by_cases hp : S.perTicket = true
+  · simp only [hp, if_true, Bool.true_and, Bool.or_eq_true, List.contains_iff_mem]
+    exact Or.inr (mem_addOwed.2 (Or.inr ht))
+  · simp [hp]
+
+theorem requestOwn_wf (S : Station) {ids : List Nat} (h : ids ≠ [] ∨ (S.reqOwn = true ∧ S.OwedWF)) :
+    (S.requestOwn ids).OwedWF := by
+  unfold Station.requestOwn Station.OwedWF
+  by_cases hp : S.perTicket = true
+  · simp only [hp, if_true]
+    intro _ _
+    apply addOwed_ne_nil
+    rcases h with h | ⟨h1, h2⟩
+    · exact Or.inr h
+    · exact Or.inl (h2 hp h1)
+  · simp [hp]
+
+/-- a further request never cancels a pending one -/
+theorem requestOwn_owes {S : Station} {t : Nat} (h : Owes S t) (ids : List Nat) : Owes (S.requestOwn ids) t := by
+  obtain ⟨ha, hwf⟩ := h
+  have hr := asked_reqOwn ha
+  refine ⟨?_, requestOwn_wf S (Or.inr ⟨hr, hwf⟩)⟩
+  unfold Station.requestOwn Station.asked
+  by_cases hp : S.perTicket = true
+  · simp only [hp, if_true, Bool.true_and, Bool.or_eq_true, List.contains_iff_mem]
+    right
+    apply mem_addOwed.2; left
+    have hne := hwf hp hr
+    unfold Station.asked at ha
+    simp only [hp, if_true, hr, Bool.true_and, Bool.or_eq_true, List.contains_iff_mem] at ha
+    rcases ha with ha | ha
+    · cases ho : S.owed with
+      | nil => exact absurd ho hne
+      | cons _ _ => rw [ho] at ha; simp at ha
+    · exact ha
+  · simp [hp]
+
+/-- every own ticket owes its certificate (a new neighbour was seen) -/
+def AllOwe (S : Station) : Prop := (∀ o ∈ S.store.own, S.asked o.c.id = true) ∧ S.OwedWF ∧ S.store.own ≠ []
+
+theorem AllOwe.owes {S : Station} (h : AllOwe S) {o : SC} (ho : o ∈ S.store.own) : Owes S o.c.id := ⟨h.1 o ho, h.2.1⟩
+
+theorem SameReq.allOwe {S T : Station} (h : SameReq S T) (hown : T.store.own = S.store.own) (ha : AllOwe S) : AllOwe T :=
+  ⟨fun o ho => by rw [h.asked]; exact ha.1 o (hown ▸ ho), h.wf ha.2.1, by rw [hown]; exact ha.2.2⟩
+
+theorem requestOwn_allOwe {S : Station} (h : AllOwe S) (ids : List Nat) : AllOwe (S.requestOwn ids) := by
+  refine ⟨fun o ho => ?_, ?_, by simpa using h.2.2⟩
+  · exact (requestOwn_owes (h.owes (by simpa using ho)) ids).1
+  · cases hown : S.store.own with
+    | nil => exact absurd hown h.2.2
+    | cons o _ => exact (requestOwn_owes (h.owes (o := o) (by simp [hown])) ids).2
+
+/-- `notify_unknown_at` makes every own ticket owe its certificate -/
+theorem requestOwn_ownIds_allOwe (S : Station) (hne : S.store.own ≠ []) : AllOwe (S.requestOwn S.ownIds) := by
+  have hids : S.ownIds ≠ [] := by
+    unfold Station.ownIds; intro h; exact hne (List.map_eq_nil_iff.1 h)
+  refine ⟨fun o ho => asked_requestOwn_mem S ?_, requestOwn_wf S (Or.inl hids), by simpa using hne⟩
+  unfold Station.ownIds
+  exact List.mem_map.2 ⟨o, by simpa using ho, rfl⟩
+
+/-- the station will ask for ticket `x` (HashedId3) and attach its own certificate – whichever ticket it signs with –
+    in its next CAM -/
+def Asking (S : Station) (x : Nat) : Prop := x ∈ S.unknownAts ∧ AllOwe S
+
+theorem notifyUnknown_unknownAts (S : Station) (h8 : Nat) :
+    (S.notifyUnknown h8).unknownAts =
+      (if S.unknownAts.contains (h3 h8) then S.unknownAts else S.unknownAts ++ [h3 h8]) := by
+  unfold Station.notifyUnknown; simp
+
+theorem notifyUnknown_allOwe (S : Station) (h8 : Nat) (hne : S.store.own ≠ []) : AllOwe (S.notifyUnknown h8) := by
+  unfold Station.notifyUnknown
+  exact requestOwn_ownIds_allOwe
+    { S with unknownAts := if S.unknownAts.contains (h3 h8) then S.unknownAts else S.unknownAts ++ [h3 h8] } hne
+
+theorem notifyUnknown_asking (S : Station) (h8 : Nat) (hne : S.store.own ≠ []) : Asking (S.notifyUnknown h8) (h3 h8) := by
+  refine ⟨?_, notifyUnknown_allOwe S h8 hne⟩
+  rw [notifyUnknown_unknownAts]
   split
   · rename_i h; simpa using h
   · simp
 
 theorem notifyUnknown_keeps {S : Station} {x : Nat} (h : Asking S x) (h8 : Nat) : Asking (S.notifyUnknown h8) x := by
-  unfold Station.notifyUnknown Asking
-  refine ⟨?_, rfl⟩
-  show x ∈ (if S.unknownAts.contains (h3 h8) then S.unknownAts else S.unknownAts ++ [h3 h8])
+  refine ⟨?_, notifyUnknown_allOwe S h8 h.2.2.2⟩
+  rw [notifyUnknown_unknownAts]
   split
   · exact h.1
   · simp [h.1]
+
+theorem notifyUnknown_owes {S : Station} {t : Nat} (h : Owes S t) (h8 : Nat) : Owes (S.notifyUnknown h8) t := by
+  unfold Station.notifyUnknown
+  simp only
+  exact requestOwn_owes (SameReq.owes (S := S)
+    (T := { S with unknownAts := if S.unknownAts.contains (h3 h8) then S.unknownAts else S.unknownAts ++ [h3 h8] })
+    ⟨rfl, rfl, rfl⟩ h) _
 
 theorem note_keeps {S : Station} {x : Nat} (h : Asking S x) (h8 : Nat) : Asking (S.note h8) x := by
   unfold Station.note; split
   · exact notifyUnknown_keeps h h8
   · exact h
 
+theorem note_owes {S : Station} {t : Nat} (h : Owes S t) (h8 : Nat) : Owes (S.note h8) t := by
+  unfold Station.note; split
+  · exact notifyUnknown_owes h h8
+  · exact h
+
 theorem addRequested_fields (S : Station) (x : Nat) :
     (S.addRequested x).unknownAts = S.unknownAts ∧ (S.addRequested x).reqOwn = S.reqOwn ∧
     (S.addRequested x).hasSign = S.hasSign := by
+  unfold Station.addRequested; split <;> exact ⟨rfl, rfl, rfl⟩
+
+theorem addRequested_sameReq (S : Station) (x : Nat) : SameReq S (S.addRequested x) := by
   unfold Station.addRequested; split <;> exact ⟨rfl, rfl, rfl⟩
 
 theorem foldl_addRequested_fields (l : List Nat) (S : Station) :
@@ -1462,35 +1644,75 @@ theorem foldl_addRequested_fields (l : List Nat) (S : Station) :
     obtain ⟨h3, h4, _⟩ := addRequested_fields S x
     exact ⟨h1.trans h3, h2.trans h4⟩
 
-theorem notifyInline_fields (S : Station) (r : List Nat) :
-    (S.notifyInline r).unknownAts = S.unknownAts ∧
-    ((S.notifyInline r).reqOwn = true ↔ (S.reqOwn = true ∨ S.store.own.any (fun o => r.contains (h3 o.c.id)) = true)) := by
+theorem foldl_addRequested_sameReq (l : List Nat) (S : Station) : SameReq S (l.foldl Station.addRequested S) := by
+  induction l generalizing S with
+  | nil => exact ⟨rfl, rfl, rfl⟩
+  | cons x xs ih => simp only [List.foldl_cons]; exact (addRequested_sameReq S x).trans (ih _)
+
+theorem notifyInline_unknownAts (S : Station) (r : List Nat) : (S.notifyInline r).unknownAts = S.unknownAts := by
   unfold Station.notifyInline
   simp only
-  by_cases hc : S.store.own.any (fun o => r.contains (h3 o.c.id)) = true
-  · simp only [hc, if_true]
-    obtain ⟨h1, h2⟩ := foldl_addRequested_fields r { S with reqOwn := true }
-    rw [h1, h2]; simp
-  · have hc' : S.store.own.any (fun o => r.contains (h3 o.c.id)) = false := by simpa using hc
-    simp only [hc', Bool.false_eq_true, if_false]
-    obtain ⟨h1, h2⟩ := foldl_addRequested_fields r S
-    rw [h1, h2]; simp
+  rw [(foldl_addRequested_fields r _).1]
+  split
+  · simp
+  · rfl
 
-theorem afterInline_fields (S : Station) (m : Msg) :
-    (S.afterInline m).unknownAts = S.unknownAts ∧ (S.reqOwn = true → (S.afterInline m).reqOwn = true) := by
+/-- an accepted inlineP2pcdRequest keeps what was owed, and makes every own ticket it names owe its certificate -/
+theorem notifyInline_owes {S : Station} {t : Nat} (h : Owes S t) (r : List Nat) : Owes (S.notifyInline r) t := by
+  unfold Station.notifyInline
+  simp only
+  refine (foldl_addRequested_sameReq r _).owes ?_
+  split
+  · exact requestOwn_owes h _
+  · exact h
+
+theorem notifyInline_allOwe {S : Station} (h : AllOwe S) (r : List Nat) : AllOwe (S.notifyInline r) := by
+  unfold Station.notifyInline
+  simp only
+  refine (foldl_addRequested_sameReq r _).allOwe (by rw [foldl_addRequested_store]) ?_
+  split
+  · exact requestOwn_allOwe h _
+  · exact h
+
+theorem notifyInline_named (S : Station) {r : List Nat} {o : SC} (ho : o ∈ S.store.own) (hx : h3 o.c.id ∈ r) :
+    Owes (S.notifyInline r) o.c.id := by
+  unfold Station.notifyInline
+  simp only
+  refine (foldl_addRequested_sameReq r _).owes ?_
+  have hany : S.store.own.any (fun o => r.contains (h3 o.c.id)) = true := by
+    rw [List.any_eq_true]; exact ⟨o, ho, by simpa using hx⟩
+  simp only [hany, if_true]
+  have hmem : o.c.id ∈ (S.store.own.filter (fun o => r.contains (h3 o.c.id))).map (·.c.id) :=
+    List.mem_map.2 ⟨o, List.mem_filter.2 ⟨ho, by simpa using hx⟩, rfl⟩
+  exact ⟨asked_requestOwn_mem S hmem, requestOwn_wf S (Or.inl (List.ne_nil_of_mem hmem))⟩
+
+theorem afterInline_unknownAts (S : Station) (m : Msg) : (S.afterInline m).unknownAts = S.unknownAts := by
   unfold Station.afterInline
   split
-  · rename_i r _
-    obtain ⟨h1, h2⟩ := notifyInline_fields S r
-    exact ⟨h1, fun h => h2.2 (Or.inl h)⟩
-  · exact ⟨rfl, id⟩
+  · exact notifyInline_unknownAts S _
+  · rfl
+
+theorem afterInline_owes {S : Station} {t : Nat} (h : Owes S t) (m : Msg) : Owes (S.afterInline m) t := by
+  unfold Station.afterInline
+  split
+  · exact notifyInline_owes h _
+  · exact h
+
+theorem afterInline_allOwe {S : Station} (h : AllOwe S) (m : Msg) : AllOwe (S.afterInline m) := by
+  unfold Station.afterInline
+  split
+  · exact notifyInline_allOwe h _
+  · exact h
 
 theorem notifyReceivedCa_fields (cfg : Cfg) (S : Station) (c : Cert) :
     (S.notifyReceivedCa cfg c).1.unknownAts = S.unknownAts.erase (h3 c.id) ∧
-    (S.notifyReceivedCa cfg c).1.reqOwn = S.reqOwn := by
+    SameReq S (S.notifyReceivedCa cfg c).1 ∧ (S.notifyReceivedCa cfg c).1.store.own = S.store.own := by
   unfold Station.notifyReceivedCa
   simp only
-  split <;> exact ⟨rfl, rfl⟩
+  split
+  · exact ⟨rfl, ⟨rfl, rfl, rfl⟩, rfl⟩
+  · rename_i st hst
+    exact ⟨rfl, ⟨rfl, rfl, rfl⟩, (addAA_grows hst).own⟩
 
 /-- the message's requestedCertificate does not collide (HashedId3) with the awaited ticket -/
 def Msg.noCaClash (m : Msg) (x : Nat) : Prop := ∀ c, m.reqCert = some c → h3 c.id ≠ x
@@ -1500,26 +1722,26 @@ theorem onSuccess_asking {cfg : Cfg} {S : Station} {x : Nat} (h : Asking S x) {m
   unfold Station.onSuccess
   split
   · exact h
-  · obtain ⟨h1, h2⟩ := afterInline_fields S m
+  · have h1 := afterInline_unknownAts S m
+    have h2 := afterInline_allOwe h.2 m
     split
-    · exact ⟨by rw [h1]; exact h.1, h2 h.2⟩
+    · exact ⟨by rw [h1]; exact h.1, h2⟩
     · rename_i c hc
-      obtain ⟨h3', h4⟩ := notifyReceivedCa_fields cfg (S.afterInline m) c
-      refine ⟨?_, by rw [h4]; exact h2 h.2⟩
+      obtain ⟨h3', h4, h5⟩ := notifyReceivedCa_fields cfg (S.afterInline m) c
+      refine ⟨?_, h4.allOwe h5 h2⟩
       rw [h3', h1]
       exact (List.mem_erase_of_ne (hm c hc).symm).2 h.1
 
-theorem onSuccess_reqOwn {cfg : Cfg} {S : Station} (h : S.reqOwn = true) (m : Msg) :
-    (S.onSuccess cfg m).1.reqOwn = true := by
+theorem onSuccess_owes {cfg : Cfg} {S : Station} {t : Nat} (h : Owes S t) (m : Msg) :
+    Owes (S.onSuccess cfg m).1 t := by
   unfold Station.onSuccess
   split
   · exact h
-  · obtain ⟨_, h2⟩ := afterInline_fields S m
+  · have h2 := afterInline_owes h m
     split
-    · exact h2 h
+    · exact h2
     · rename_i c hc
-      obtain ⟨_, h4⟩ := notifyReceivedCa_fields cfg (S.afterInline m) c
-      rw [h4]; exact h2 h
+      exact (notifyReceivedCa_fields cfg (S.afterInline m) c).2.1.owes h2
 
 theorem verifyWith_asking {cfg : Cfg} {S : Station} {x : Nat} (h : Asking S x) {m : Msg} (hm : m.noCaClash x) (a : SC) :
     Asking (S.verifyWith cfg m a).1 x := by
@@ -1531,15 +1753,22 @@ theorem verifyWith_asking {cfg : Cfg} {S : Station} {x : Nat} (h : Asking S x) {
       split <;> (rename_i hh; rw [hh] at this; exact this)
     · exact h
 
-theorem verifyWith_reqOwn {cfg : Cfg} {S : Station} (h : S.reqOwn = true) (m : Msg) (a : SC) :
-    (S.verifyWith cfg m a).1.reqOwn = true := by
+theorem verifyWith_owes {cfg : Cfg} {S : Station} {t : Nat} (h : Owes S t) (m : Msg) (a : SC) :
+    Owes (S.verifyWith cfg m a).1 t := by
   unfold Station.verifyWith
   split
   · exact h
   · split
-    · have := onSuccess_reqOwn (cfg := cfg) h m
+    · have := onSuccess_owes (cfg := cfg) h m
       split <;> (rename_i hh; rw [hh] at this; exact this)
     · exact h
+
+theorem asking_store {S : Station} {x : Nat} (h : Asking S x) {st : Store} (hown : st.own = S.store.own) :
+    Asking { S with store := st } x :=
+  ⟨h.1, SameReq.allOwe (S := S) ⟨rfl, rfl, rfl⟩ hown h.2⟩
+
+theorem owes_store {S : Station} {t : Nat} (h : Owes S t) (st : Store) : Owes { S with store := st } t :=
+  SameReq.owes (S := S) ⟨rfl, rfl, rfl⟩ h
 
 /-- receiving anything keeps the pending request (unless a CA certificate with a colliding HashedId3 arrives) -/
 theorem verifyMsg_asking {cfg : Cfg} {S : Station} {x : Nat} (h : Asking S x) {m : Msg} (hm : m.noCaClash x) :
@@ -1559,44 +1788,97 @@ theorem verifyMsg_asking {cfg : Cfg} {S : Station} {x : Nat} (h : Asking S x) {m
         · exact note_keeps h _
         · exact h
       · rename_i st a hseq
-        exact verifyWith_asking (S := { S with store := st }) h hm a
+        exact verifyWith_asking (S := { S with store := st }) (asking_store h (verifySeq1_grows hseq).own) hm a
     · exact h
 
-/-- a request for the own certificate, once noted, survives every reception -/
-theorem verifyMsg_reqOwn {cfg : Cfg} {S : Station} (h : S.reqOwn = true) (m : Msg) :
-    (S.verifyMsg cfg m).1.reqOwn = true := by
+/-- a request for the certificate of ticket `t`, once noted, survives every reception -/
+theorem verifyMsg_owes {cfg : Cfg} {S : Station} {t : Nat} (h : Owes S t) (m : Msg) :
+    Owes (S.verifyMsg cfg m).1 t := by
   unfold Station.verifyMsg
   split
   · split <;> exact h
   · split
     · exact h
     · split
-      · unfold Station.note; split
-        · rfl
-        · exact h
-      · exact verifyWith_reqOwn h m _
+      · exact note_owes h _
+      · exact verifyWith_owes h m _
   · split
     · split
       · exact h
       · split
-        · unfold Station.note; split
-          · rfl
-          · exact h
+        · exact note_owes h _
         · exact h
       · rename_i st a hseq
-        exact verifyWith_reqOwn (S := { S with store := st }) h m a
+        exact verifyWith_owes (S := { S with store := st }) (owes_store h st) m a
     · exact h
 
 /-- (step 0) a digest-signed message of an unknown ticket is rejected and makes the receiver ask for it -/
-theorem reject_unknown_digest {cfg : Cfg} {S : Station} (hs : S.hasSign = true) {m : Msg} {h8 : Nat}
-    (hsg : m.signer = .digest h8) (h37 : m.psid ≠ 37) (hun : find S.store.ats h8 = none) :
+theorem reject_unknown_digest {cfg : Cfg} {S : Station} (hs : S.hasSign = true) (hne : S.store.own ≠ []) {m : Msg}
+    {h8 : Nat} (hsg : m.signer = .digest h8) (h37 : m.psid ≠ 37) (hun : find S.store.ats h8 = none) :
     (S.verifyMsg cfg m).2 = .ok { report := .signerCertificateNotFound } ∧
     Asking (S.verifyMsg cfg m).1 (h3 h8) ∧ (S.verifyMsg cfg m).1.store = S.store ∧
     (S.verifyMsg cfg m).1.hasSign = S.hasSign := by
   unfold Station.verifyMsg
   have : (m.psid == 37) = false := by simpa using h37
   simp only [hsg, this, Bool.false_eq_true, if_false, hun, Station.note, hs, if_true]
-  exact ⟨trivial, notifyUnknown_asking S h8, rfl, hs⟩
+  exact ⟨trivial, notifyUnknown_asking S h8 hne, by simp, by simp [hs]⟩
+
+theorem find_map_set (t now : Nat) : ∀ l : List (Nat × Nat), (∃ q ∈ l, (q.1 == t) = true) →
+    (l.map (fun p => if p.1 == t then (t, now) else p)).find? (fun p => p.1 == t) = some (t, now) := by
+  intro l
+  induction l with
+  | nil => rintro ⟨q, hq, _⟩; simp at hq
+  | cons x xs ih =>
+    rintro ⟨q, hq, hqt⟩
+    by_cases hx : (x.1 == t) = true
+    · simp only [List.map_cons, hx, if_true, List.find?_cons, beq_self_eq_true]
+    · have hx' : (x.1 == t) = false := by simpa using hx
+      simp only [List.map_cons, hx', Bool.false_eq_true, if_false, List.find?_cons]
+      rcases List.mem_cons.1 hq with rfl | hq'
+      · exact absurd hqt hx
+      · exact ih ⟨q, hq', hqt⟩
+
+theorem find_none_of_any_false (t : Nat) (l : List (Nat × Nat)) (h : l.any (fun p => p.1 == t) = false) :
+    l.find? (fun p => p.1 == t) = none := by
+  rw [List.find?_eq_none]
+  intro x hx
+  have := (List.any_eq_false.1 h) x hx
+  simpa using this
+
+/-- `dict[t] = now` then `dict.get(t, 0)` -/
+theorem lastIncl_setLast_same (l : List (Nat × Nat)) (t now : Nat) :
+    (match (Station.setLast l t now).find? (fun p => p.1 == t) with | some p => p.2 | none => 0) = now := by
+  unfold Station.setLast
+  by_cases ha : l.any (fun p => p.1 == t) = true
+  · simp only [ha, if_true]
+    rw [find_map_set t now l (List.any_eq_true.1 ha)]
+  · have ha' : l.any (fun p => p.1 == t) = false := Bool.eq_false_iff.2 ha
+    simp only [ha', Bool.false_eq_true, if_false]
+    rw [List.find?_append, find_none_of_any_false t l ha']; simp
+
+theorem included_lastFor (S : Station) (t now : Nat) : (S.included t now).lastFor t = now := by
+  unfold Station.included Station.lastFor
+  by_cases hp : S.perTicket = true
+  · simp only [hp, if_true, Station.lastIncl]
+    exact lastIncl_setLast_same S.lastOf t now
+  · simp [hp]
+
+theorem included_asked (S : Station) (t now : Nat) : (S.included t now).asked t = false := by
+  unfold Station.included Station.asked
+  by_cases hp : S.perTicket = true
+  · simp only [hp, if_true]
+    cases hf : S.owed.filter (fun x => x != t) with
+    | nil => simp
+    | cons y ys =>
+      have hnot : t ∉ S.owed.filter (fun x => x != t) := by
+        intro hm; have := (List.mem_filter.1 hm).2; simp at this
+      rw [hf] at hnot
+      simp only [List.isEmpty_cons, Bool.not_false, Bool.true_and, Bool.false_or]
+      simpa using hnot
+  · simp [hp]
+
+theorem wantsCert_of_asked {S : Station} {t : Nat} (h : S.asked t = true) (now : Nat) : S.wantsCert t now = true := by
+  unfold Station.wantsCert; simp [h]
 
 /-- (step 1) a station that is asking puts the request and its own certificate into its next CAM -/
 theorem asking_cam {S S' : Station} {x : Nat} (h : Asking S x) {now psid gt pl : Nat} {m : Msg}
@@ -1607,7 +1889,7 @@ theorem asking_cam {S S' : Station} {x : Nat} (h : Asking S x) {now psid gt pl :
   refine ⟨a, hp, ?_, ⟨S.unknownAts, ?_, h.1⟩, hb, hl⟩
   · rcases hw with ⟨_, h2, _⟩ | ⟨h1, _⟩
     · exact h2
-    · simp [Station.wantsCert, h.2] at h1
+    · rw [wantsCert_of_asked (h.2.1 a (presentAt_some hp).1)] at h1; cases h1
   · rw [hinl]; unfold Station.inlineField
     have : S.unknownAts.isEmpty = false := by
       have h1 := h.1
@@ -1616,33 +1898,31 @@ theorem asking_cam {S S' : Station} {x : Nat} (h : Asking S x) {now psid gt pl :
       | cons _ _ => rfl
     simp [this]
 
-/-- (step 2) accepting a CAM whose inlineP2pcdRequest names an own ticket makes the station attach its certificate next -/
+/-- (step 2) accepting a CAM whose inlineP2pcdRequest names an own ticket makes that ticket attach its certificate next -/
 theorem request_received {cfg : Cfg} {S : Station} (hs : S.hasSign = true) {m : Msg} {l : List Nat}
     (hinl : m.inlineReq = some l) {o : SC} (ho : o ∈ S.store.own) (hx : h3 o.c.id ∈ l) :
-    (S.onSuccess cfg m).1.reqOwn = true := by
+    Owes (S.onSuccess cfg m).1 o.c.id := by
   unfold Station.onSuccess
   simp only [hs, Bool.not_true, Bool.false_eq_true, if_false]
-  have h1 : (S.afterInline m).reqOwn = true := by
+  have h1 : Owes (S.afterInline m) o.c.id := by
     unfold Station.afterInline
     simp only [hinl]
-    apply (notifyInline_fields S l).2.2
-    right
-    rw [List.any_eq_true]
-    exact ⟨o, ho, by simpa using hx⟩
+    exact notifyInline_named S ho hx
   split
   · exact h1
   · rename_i c hc
-    rw [(notifyReceivedCa_fields cfg (S.afterInline m) c).2]; exact h1
+    exact (notifyReceivedCa_fields cfg (S.afterInline m) c).2.1.owes h1
 
-/-- (step 3) a station whose certificate was requested signs its next CAM with the certificate, whatever its timer says -/
-theorem requested_cam {S S' : Station} (h : S.reqOwn = true) {now psid gt pl : Nat} {m : Msg}
-    (hc : S.signCam now psid gt pl = (S', .ok m)) :
+/-- (step 3) a ticket whose certificate was requested signs its next CAM with the certificate, whatever its timer says -/
+theorem requested_cam {S S' : Station} {now psid gt pl : Nat} {m : Msg}
+    (hc : S.signCam now psid gt pl = (S', .ok m))
+    (h : ∀ a, Station.presentAt S.store.own psid = .ok (some a) → S.asked a.c.id = true) :
     ∃ a, Station.presentAt S.store.own psid = .ok (some a) ∧ m.signer = .certs [a.c] ∧ BaseProfile m psid gt pl a ∧
-      m.genLoc = false ∧ S'.reqOwn = false ∧ S'.lastFull = now := by
+      m.genLoc = false ∧ S'.lastFull = now := by
   obtain ⟨a, hp, hb, hl, _, _, _, _, _, _, hw⟩ := signCam_ok hc
-  rcases hw with ⟨_, h2, h3', h4⟩ | ⟨h1, _⟩
-  · exact ⟨a, hp, h2, hb, hl, h4, h3'⟩
-  · simp [Station.wantsCert, h] at h1
+  rcases hw with ⟨_, h2, h3', _⟩ | ⟨h1, _⟩
+  · exact ⟨a, hp, h2, hb, hl, h3'⟩
+  · rw [wantsCert_of_asked (h a hp)] at h1; cases h1
 
 
 
@@ -1675,7 +1955,7 @@ theorem onSuccess_hasSign (cfg : Cfg) (S : Station) (m : Msg) : (S.onSuccess cfg
   have hA : (S.afterInline m).hasSign = S.hasSign := by
     unfold Station.afterInline
     split
-    · unfold Station.notifyInline; simp only; rw [foldl_addRequested_hasSign]; split <;> rfl
+    · unfold Station.notifyInline; simp only; rw [foldl_addRequested_hasSign]; split <;> simp
     · rfl
   unfold Station.onSuccess
   split
@@ -1721,7 +2001,9 @@ theorem signCam_fields (S : Station) (now psid gt pl : Nat) :
     split
     · exact ⟨rfl, rfl⟩
     · exact ⟨rfl, rfl⟩
-    · split <;> exact ⟨rfl, rfl⟩
+    · split
+      · exact ⟨by simp, by simp⟩
+      · exact ⟨rfl, rfl⟩
 
 /-- one traffic operation: own certificates, roots and the sign-service flag never change -/
 theorem traffic_step_fixed {cfg : Cfg} (S : Station) {op : Op} (ht : op.isTraffic) :
@@ -1778,10 +2060,10 @@ theorem traffic_step_asking {cfg : Cfg} {S : Station} {x : Nat} (h : Asking S x)
   | addOwn s => exact absurd ht (by simp [Op.isTraffic])
   | vseq cs => exact absurd ht (by simp [Op.isTraffic])
 
-theorem traffic_step_reqOwn {cfg : Cfg} {S : Station} (h : S.reqOwn = true) {op : Op}
-    (ht : op.isTraffic) (hn : op.notCam) : (S.step cfg op).reqOwn = true := by
+theorem traffic_step_owes {cfg : Cfg} {S : Station} {t : Nat} (h : Owes S t) {op : Op}
+    (ht : op.isTraffic) (hn : op.notCam) : Owes (S.step cfg op) t := by
   cases op with
-  | msg m => exact verifyMsg_reqOwn h m
+  | msg m => exact verifyMsg_owes h m
   | signCam now psid gt pl => exact absurd hn (by simp [Op.notCam])
   | signDenm loc psid gt pl => simp only [Station.step]; rw [signDenm_state]; exact h
   | signOther psid gt pl => simp only [Station.step]; rw [signOther_state]; exact h
@@ -1823,14 +2105,14 @@ theorem traffic_run_asking {cfg : Cfg} {x : Nat} (ops : List Op) (S : Station) (
     have := h op (by simp)
     exact ih _ (traffic_step_asking ha this.1 this.2.1 this.2.2) (fun o ho => h o (by simp [ho]))
 
-theorem traffic_run_reqOwn {cfg : Cfg} (ops : List Op) (S : Station) (ha : S.reqOwn = true)
-    (h : ∀ op ∈ ops, op.isTraffic ∧ op.notCam) : (S.run cfg ops).reqOwn = true := by
+theorem traffic_run_owes {cfg : Cfg} {t : Nat} (ops : List Op) (S : Station) (ha : Owes S t)
+    (h : ∀ op ∈ ops, op.isTraffic ∧ op.notCam) : Owes (S.run cfg ops) t := by
   induction ops generalizing S with
   | nil => exact ha
   | cons op rest ih =>
     rw [run_cons]
     have := h op (by simp)
-    exact ih _ (traffic_step_reqOwn ha this.1 this.2) (fun o ho => h o (by simp [ho]))
+    exact ih _ (traffic_step_owes ha this.1 this.2) (fun o ho => h o (by simp [ho]))
 
 
 
